@@ -57,9 +57,11 @@ def gen(rng, tier, no, wide=False):
     if rng.random() < 0.7:
         rng.shuffle(ids)
     off = rng.choice([0, 5, 1000])
+    if rng.random() < 0.06:
+        ids = [i + 33000 for i in ids]       # event ids beyond the range of a 16-bit integer
     events = [[i, s[0] + off, s[1]] for i, s in zip(ids, spans)]
     rng.shuffle(events)      # row order of the frame
-    case = {"cfg": {"grid": g}, "ranks": {}, "events": events, "params": {"via_trace": rng.random() < 0.3, "tid": rng.choice([1, 1, 2, 3, 7, 100, 31234]), "two_ranks": rng.random() < 0.5}}
+    case = {"cfg": {"grid": g}, "ranks": {}, "events": events, "params": {"via_trace": rng.random() < 0.3, "tid": rng.choice([1, 1, 2, 3, 7, 100, 31234, 40961, 3727853]), "two_ranks": rng.random() < 0.5}}
     return case
 
 
